@@ -347,7 +347,8 @@ class ConfigManager:
         """Delete an environment and all associated profiles.
 
         Returns True if the environment existed and was deleted, False otherwise.
-        If the deleted environment was current, switch current to the default URL.
+        If the deleted environment was current, switch current to the default URL
+        and clear the active profile (as switching environments does).
         """
         with sqlite3.connect(self.db_path) as conn:
             # Check existence
@@ -374,6 +375,10 @@ class ConfigManager:
                     "INSERT OR REPLACE INTO settings (key, value) VALUES ('current_environment_api_url', ?)",
                     (DEFAULT_ENVIRONMENT.api_url,),
                 )
+                # The active profile is stored by name only and was selected in the
+                # deleted environment; do not let a same-named profile of the
+                # default environment become active.
+                conn.execute("DELETE FROM settings WHERE key = 'current_profile'")
 
             conn.commit()
             return True
